@@ -157,6 +157,47 @@ def replaced_history(rng, i):
     return g.script(), stale, {x: (0, 2)}
 
 
+def custom_remove_history(rng, i):
+    """Removals (by value and by reference) committed together with a custom proposal for which the
+    application's rules ask for no update path: the removal alone must force the path."""
+    n = rng.choice([3, 4, 5])
+    g = HistGen(rng, n_pool=n + 2, name=f"c02-cr{i}", storage="mem")
+    g.start()
+    for m in g.pool:
+        g.ops.append({"op": "opts", "who": m, "custom_needs_path": False})
+    g.round(n_props=0, by_value_adds=n - 1, by_value_removes=0, app=False, encrypt=False, observe="all")
+    ops = g.ops
+    for r in range(2):
+        if len(g.in_group) < 3:
+            break
+        c = rng.choice(g.in_group)
+        gone = rng.choice([m for m in g.in_group if m != c])
+        for m in g.in_group:
+            ops.append({"op": "opts", "who": m, "path_required": False, "encrypt_controls": False, "tree_ext": True})
+        cid = g.fresh("c")
+        o = {"op": "commit", "who": c, "id": cid, "custom": "c0%02x" % r}
+        if rng.chance(1, 2):
+            o["remove_names"] = [gone]
+        else:
+            p_ = rng.choice([m for m in g.in_group if m not in (gone,)])
+            pid = g.fresh("p")
+            ops.append({"op": "propose", "who": p_, "kind": "remove", "name": gone, "id": pid})
+            for m in g.in_group:
+                if m != p_:
+                    ops.append({"op": "deliver", "to": m, "msg": pid})
+        ops.append(o)
+        for m in g.in_group:
+            if m != c:
+                ops.append({"op": "deliver", "to": m, "msg": cid})
+        ops.append({"op": "apply", "who": c})
+        g.in_group.remove(gone)
+        g.removed.append(gone)
+        g.epoch += 1
+        g.commit_ids.append(cid)
+        ops.append({"op": "observe", "who": c, "observe": "all"})
+    return g.script(), [], {}
+
+
 def main(run, args):
     rng = Rng(run.seed)
     run.assumptions += [
@@ -187,6 +228,9 @@ def main(run, args):
         scripts.append(sc); stales.append(st); removed.append(rm)
     for i in range(4 if quick else 24):
         sc, st, rm = replaced_history(rng, i)
+        scripts.append(sc); stales.append(st); removed.append(rm)
+    for i in range(6 if quick else 40):
+        sc, st, rm = custom_remove_history(rng, i)
         scripts.append(sc); stales.append(st); removed.append(rm)
     recs = run_scripts(scripts, timeout=2400)
     failing = []
@@ -242,6 +286,9 @@ def main(run, args):
                 failing.append(dict(ctx, what="a secret was sealed to a key that is not in the new tree (node index, member in the OLD tree): " + json.dumps(offenders)))
                 continue
             if not crec["info"]["path"]:
+                kinds_applied = [d["k"] for d in info["detail"]]
+                if not kinds_applied or any(k in ("remove", "update", "gce", "extinit") for k in kinds_applied):
+                    failing.append(dict(ctx, what="a commit that removes / updates a member (or changes the context, or is empty) carries NO update path: nothing is re-keyed, the removed member can compute the secrets of the new epoch"))
                 if rest:
                     failing.append(dict(ctx, what="HPKE seals without an update path"))
                 continue
